@@ -9,6 +9,7 @@ pub mod c10;
 pub mod c12;
 pub mod c13;
 pub mod c14;
+pub mod c15;
 pub mod c16;
 pub mod c17;
 pub mod c18;
@@ -35,6 +36,7 @@ pub fn lookup(id: &str) -> Option<(&'static str, RunFn, ReplayFn, &'static str, 
         "C12" => ("C12", c12::run, c12::replay, "exploration", c12::worker),
         "C13" => ("C13", c13::run, c13::replay, "exploration", c13::worker),
         "C14" => ("C14", c14::run, c14::replay, "exploration", c14::worker),
+        "C15" => ("C15", c15::run, c15::replay, "exploration", c15::worker),
         "C16" => ("C16", c16::run, c16::replay, "exploration", c16::worker),
         "C17" => ("C17", c17::run, c17::replay, "exploration", c17::worker),
         "C18" => ("C18", c18::run, c18::replay, "exploration", c18::worker),
